@@ -549,6 +549,17 @@ func (c13) Case(c *core.Ctx) {
 		maxLen, maxDocs = 400, 5
 	}
 	stream, ds := c13buildStream(r, api.json, api.seq, maxDocs, maxLen, c)
+	deep := false
+	if api.json && r.Intn(20) == 0 {
+		// objects nested to depths around the limits of a small depth counter, followed by an ordinary document
+		d := []int{126, 127, 128, 129, 130, 200, 254, 255, 256, 257, 300}[r.Intn(11)]
+		t := strings.Repeat(`{"a":`, d) + `"}"` + strings.Repeat("}", d)
+		t2 := `{"next":[1,{"b":"{"}]}`
+		stream = " " + t + "\n" + t2
+		ds = []docSpan{{t, 1, 1 + len(t)}, {t2, 2 + len(t), 2 + len(t) + len(t2)}}
+		deep = true
+		c.Count("stream:deeply-nested-json")
+	}
 	if len(ds) >= 2 {
 		c.Count("stream:multi-doc")
 	}
@@ -590,7 +601,7 @@ func (c13) Case(c *core.Ctx) {
 	// baselines + complete single-fault sweep
 	for _, eofWith := range []bool{false, true} {
 		c13run(c, api, stream, ds, wantFp, c13sched{eofWith: eofWith, stopAt: stopAt}, c.Verbose)
-		for p := 0; p < len(stream); p++ {
+		for p := 0; p < len(stream) && !deep; p++ {
 			c13run(c, api, stream, ds, wantFp, c13sched{zeroAt: map[int]int{p: 1 + p%7}, eofWith: eofWith, stopAt: stopAt}, c.Verbose)
 		}
 	}
